@@ -39,6 +39,38 @@ type relation struct {
 // stmtState survives re-executions of one statement (lock waits).
 type stmtState struct {
 	seqVals []int64
+	// the ledger the statement is executed for ("" = unknown: system statements), its task and text
+	ledger, task, query string
+	foreignSeen         map[string]bool
+}
+
+// auditRows: every base-table row a statement matched must belong to the ledger it is executed for.
+func (x *sqlExec) auditRows(keys []*rowKey) {
+	st := x.st
+	if st == nil || st.ledger == "" {
+		return
+	}
+	for _, k := range keys {
+		if k == nil || k.Ledger == "" || k.Ledger == st.ledger {
+			continue
+		}
+		id := k.Table + "\x00" + k.Ledger
+		if st.foreignSeen[id] {
+			continue
+		}
+		if st.foreignSeen == nil {
+			st.foreignSeen = map[string]bool{}
+		}
+		st.foreignSeen[id] = true
+		q := st.query
+		if len(q) > 600 {
+			q = q[:600] + "..."
+		}
+		f := ForeignRow{Task: st.task, Ledger: st.ledger, RowLedger: k.Ledger, Table: k.Table, Key: k.Key, SQL: q}
+		x.w.mu.Lock()
+		x.w.foreign = append(x.w.foreign, f)
+		x.w.mu.Unlock()
+	}
 }
 
 type sqlExec struct {
@@ -358,6 +390,9 @@ func (x *sqlExec) runSelectCore(s *selectStmt, outer *scope) (*relation, error) 
 			}
 		}
 		rows = kept
+	}
+	for _, r := range rows {
+		x.auditRows(r.srcs)
 	}
 	if len(s.order) > 0 {
 		type keyed struct {
@@ -822,6 +857,11 @@ func (x *sqlExec) runInsert(s *insertStmt, outer *scope) (*relation, int64, erro
 			if err := x.storeRow(def, *exKey, exVals, nv); err != nil {
 				return nil, 0, err
 			}
+			if def.afterUpdate != nil {
+				if err := def.afterUpdate(x, def, exVals, nv); err != nil {
+					return nil, 0, err
+				}
+			}
 			final = nv
 		} else {
 			if err := x.storeRow(def, r.key, nil, r.vals); err != nil {
@@ -959,6 +999,7 @@ func (x *sqlExec) runUpdate(s *updateStmt, outer *scope) (*relation, int64, erro
 	var keys []rowKey
 	for _, m := range matches {
 		keys = append(keys, *m.row.src)
+		x.auditRows([]*rowKey{m.row.src})
 	}
 	if err := x.lockAll(keys); err != nil {
 		return nil, 0, err
@@ -1015,6 +1056,11 @@ func (x *sqlExec) runUpdate(s *updateStmt, outer *scope) (*relation, int64, erro
 		if err := x.storeRow(def, *m.row.src, m.row.vals, nv); err != nil {
 			return nil, 0, err
 		}
+		if def.afterUpdate != nil {
+			if err := def.afterUpdate(x, def, m.row.vals, nv); err != nil {
+				return nil, 0, err
+			}
+		}
 		affected++
 		if s.returning != nil {
 			ntb := &binding{alias: tb.alias, table: tb.table, cols: tb.cols, vals: nv}
@@ -1059,6 +1105,7 @@ func (x *sqlExec) runDelete(s *deleteStmt, outer *scope) (*relation, int64, erro
 	var keys []rowKey
 	for _, m := range matches {
 		keys = append(keys, *m.src)
+		x.auditRows([]*rowKey{m.src})
 	}
 	if err := x.lockAll(keys); err != nil {
 		return nil, 0, err
